@@ -61,6 +61,7 @@ type FuncContract struct {
 	Trusted    bool // contract assumed, body not verified (listed as assumption)
 	NoSafety   bool
 	NoOverflow bool
+	Tallies    string    // `tallies KEY by AMOUNT`: every call adds AMOUNT to the ghost counter of KEY
 	Cas        []*Clause // allowed transitions of the package's atomic cell at every compare-and-swap of this function
 	Lean       bool // obligations checked where a path ends (return, cut back edge) are not assumed afterwards
 	Uses       []string
@@ -113,7 +114,7 @@ type PkgContracts struct {
 	Raw     string
 }
 
-var kwRe = regexp.MustCompile(`^(import|func|property|requires|names|ensures|modifies|loop|may_panic|trusted|nosafety|timeout|spec|lemma|axiom|panics|table|nooverflow|lean|cas|atomiccell|monitor|closed|purefield|hint|uses|reveals)\b`)
+var kwRe = regexp.MustCompile(`^(import|func|property|requires|names|ensures|modifies|loop|may_panic|trusted|nosafety|timeout|spec|lemma|axiom|panics|table|nooverflow|lean|cas|tallies|atomiccell|monitor|closed|purefield|hint|uses|reveals)\b`)
 
 func parseContractFile(path string) (*PkgContracts, error) {
 	f, err := os.Open(path)
@@ -213,6 +214,12 @@ func parseContractFile(path string) (*PkgContracts, error) {
 			}
 			pc.AtomicCells = append(pc.AtomicCells, ac)
 			cur, curLemma, curTable = nil, nil, nil
+			last = nil
+		case "tallies":
+			if cur == nil {
+				return nil, fmt.Errorf("%s:%d: tallies outside func", path, ln)
+			}
+			cur.Tallies = rest
 			last = nil
 		case "cas":
 			if cur == nil {
